@@ -6,6 +6,7 @@ from . import props_c03  # noqa: F401
 from . import props_c04  # noqa: F401
 from . import props_c07  # noqa: F401
 from . import props_c08  # noqa: F401
+from . import props_c10  # noqa: F401
 
 
 def _engine_for(prop):
